@@ -123,7 +123,7 @@ def plan(tier, seed):
 def minimums(tier):
     return {"hexdump.calls": 5000, "hexdump.default_layout_roundtrips": 2000, "parse.format_checks": 6000,
             "parse.short_last_line": 1500, "parse.with_comments": 800, "cli.hex_checked": 40, "layouts.checked": 400, "parse.beyond_64k": 20,
-            "parse.dump_file_checks": 500, "parse.lines_as_generator": 500, "parse.lines_as_file": 300, "parse.lines_as_tuple": 500, "parse.dump_file_hexlike_heading": 60, "parse.old_format_trimmed_lines": 300}
+            "parse.dump_file_checks": 500, "parse.lines_as_generator": 500, "parse.lines_as_file": 300, "parse.lines_as_tuple": 500, "parse.dump_file_hexlike_heading": 60, "parse.old_format_trimmed_lines": 300, "parse.near_miss_lines": 300}
 
 
 def finish(m, tier):
@@ -206,6 +206,16 @@ def run(spec, ctx):
                         mixed.append(rng.choice(comments))
                     mixed.append(ln)
                 mixed.append(rng.choice(comments))
+                if name in ("default", "bmc") and lines and rng.random() < 0.5:
+                    # near-misses of a data line: one address digit is no hex digit / the separator after the address is
+                    # wrong - such a line does not match the format and contributes nothing
+                    src_line = rng.choice(lines).rstrip("\n")
+                    alen = 8 if name == "default" else 4
+                    if len(src_line) > alen + 2:
+                        k = rng.randrange(alen)
+                        near = [src_line[:k] + rng.choice("GZ:x ") + src_line[k + 1:], src_line[:alen] + "#" + src_line[alen + 1:]]
+                        mixed.insert(rng.randrange(len(mixed) + 1), rng.choice(near))
+                        ctx.count("parse.near_miss_lines")
                 lines = mixed
                 ctx.count("parse.with_comments")
             if rng.random() < 0.5:
